@@ -39,9 +39,44 @@ Theorem C08_sound : forall lhash kw ch code atok t now d i c,
   (* 7 delivered by the authorization endpoint with a code / access token: c_hash / at_hash match *)
   (ch = true -> t_alg t <> PS "none" ->
      (forall x, code = Some x -> assoc (PS "c_hash") d = Some (VStr (lhash (hash_bits (t_alg t)) x))) /\
-     (forall x, atok = Some x -> assoc (PS "at_hash") d = Some (VStr (lhash (hash_bits (t_alg t)) x)))).
+     (forall x, atok = Some x -> assoc (PS "at_hash") d = Some (VStr (lhash (hash_bits (t_alg t)) x)))) /\
+  (* 8 delivered as a JWE around the JWS: encrypted to one of this client's own decryption keys, with the
+       expected key-management algorithm and content encryption; clauses 1-7 are about the JWS inside *)
+  (forall w, t_wrap t = Some w ->
+     (exists k, w_key w = Some k /\ In k (kw_dec kw)) /\
+     (forall a, kw_encalg kw = Some a -> a <> [] -> w_alg w = a) /\
+     (forall e, kw_encenc kw = Some e -> e <> [] -> w_enc w = e)).
 Proof. exact verify_id_token_sound. Qed.
 Print Assumptions C08_sound.
+
+(* Encrypted delivery (nested JWT).  Decryption is the identity on the symbolic level, and an encrypted delivery
+   establishes exactly what the delivery of the inner JWS to the same client without encryption expectations
+   establishes - in particular the expected signing algorithm applies to the JWS inside ... *)
+Theorem C08_encrypted_as_plain : forall lhash kw ch code atok t now d,
+  verify_id_token lhash kw ch code atok t now = Ok d ->
+  verify_id_token lhash (kw_plain kw) ch code atok (unwrap t) now = Ok d.
+Proof. exact encrypted_as_plain. Qed.
+Print Assumptions C08_encrypted_as_plain.
+
+(* ... hence a JWE around a token that is refused when delivered plain is refused. *)
+Theorem C08_refused_plain_refused_encrypted : forall lhash kw ch code atok t now,
+  (forall d, verify_id_token lhash (kw_plain kw) ch code atok (unwrap t) now <> Ok d) ->
+  forall d, verify_id_token lhash kw ch code atok t now <> Ok d.
+Proof. exact refused_plain_refused_encrypted. Qed.
+Print Assumptions C08_refused_plain_refused_encrypted.
+
+(* non-vacuity: a client that registered RS256 and RSA-OAEP / A256GCM accepts the genuine token inside a JWE
+   made for its key; refuses an ES256 token of the issuer inside the same kind of JWE, the genuine token inside a
+   JWE for another key or with another key-management algorithm, and the genuine token delivered plain *)
+Example C08_encrypted_nonvacuous :
+  let c := ex_two_flows (ex_cfg_enc (Some (PS "RS256"))) in
+  let deliver t := step_authz ex_lhash c (ex_authz_resp (PS "S1") (Some t)) ex_now in
+  is_ok (snd (deliver (wrapped (ex_tok_rs (PS "N1")) ex_wrap))) = true /\
+  deliver (wrapped (ex_tok_es (PS "N1")) ex_wrap) = (c, Err E_SignerAlgError) /\
+  deliver (wrapped (ex_tok_rs (PS "N1")) (mkJwe (PS "RSA-OAEP") (PS "A256GCM") (Some 12%nat))) = (c, Err ValueError) /\
+  deliver (wrapped (ex_tok_rs (PS "N1")) (mkJwe (PS "RSA-OAEP-256") (PS "A256GCM") (Some 11%nat))) = (c, Err E_HeaderError) /\
+  deliver (ex_tok_rs (PS "N1")) = (c, Err E_HeaderError).
+Proof. vm_compute. repeat split. Qed.
 
 (* Authorization service of a real client (Service.parse_response + post_parse_response + finalize_auth):
    a __verified_id_token is stored / returned only if the delivered token passed verify_id_token under the
@@ -135,10 +170,10 @@ Proof. vm_compute. do 3 eexists. repeat split; reflexivity. Qed.
 
 (* IdToken.verify(nonce = N) refuses a token that has no nonce claim *)
 Example C08_msgapi_nonce_absent_refused :
-  let kw := mkKw (Some ex_iss) (Some ex_cid) None None false (Some 0%Z) None false (Some (PS "N1")) ex_jar in
+  let kw := mkKw (Some ex_iss) (Some ex_cid) None None false (Some 0%Z) None false (Some (PS "N1")) ex_jar None None [] in
   let t := mkTok (PS "RS256") (Some (PS "r1")) (Some 0%nat)
                  [(PS "iss", VStr ex_iss); (PS "sub", VStr (PS "diana")); (PS "aud", VList [VStr ex_cid]);
-                  (PS "exp", VInt 1700000300); (PS "iat", VInt 1699999995)] in
+                  (PS "exp", VInt 1700000300); (PS "iat", VInt 1699999995)] None in
   verify_id_token ex_lhash kw false None None t ex_now = Err E_MissingRequiredAttribute.
 Proof. vm_compute. reflexivity. Qed.
 
@@ -163,7 +198,7 @@ Example C08_nonvacuous :
      assoc (verified_name (PS "id_token")) stored = Some (VDict vd) /\
      assoc (PS "nonce") vd = Some (VStr (PS "N1")) /\ c' <> c) /\
   step_authz ex_lhash c
-    (ex_authz_resp (PS "S1") (Some (mkTok (PS "RS256") (Some (PS "r1")) (Some 4%nat) (t_claims (ex_tok_rs (PS "N1"))))))
+    (ex_authz_resp (PS "S1") (Some (mkTok (PS "RS256") (Some (PS "r1")) (Some 4%nat) (t_claims (ex_tok_rs (PS "N1"))) None)))
     ex_now = (c, Err E_BadSignature) /\
   step_authz ex_lhash c (ex_authz_resp (PS "S1") (Some (ex_tok_rs (PS "N2")))) ex_now = (c, Err ValueError).
 Proof.
